@@ -19,7 +19,10 @@ Definition hex_digit (c : N) : option N :=
 Fixpoint hex_acc (acc : N) (s : str) : option N :=
   match s with
   | [] => Some acc
-  | c :: r => match hex_digit c with Some d => hex_acc (acc * 16 + d) r | None => None end
+  | c :: r => match hex_digit c with
+              | Some d => hex_acc (N.double (N.double (N.double (N.double acc))) + d) r
+              | None => None
+              end
   end.
 Definition N_of_hex (s : str) : option N := match s with [] => None | _ => hex_acc 0 s end.
 
@@ -79,7 +82,7 @@ Fixpoint take_doc (fuel : nat) (l : list str) (es : list elem) (rs : list ref) :
   | O => None
   | S f =>
       match l with
-      | [] => Some (mkD (rev es) (rev rs))
+      | [] => Some (mkD (rev_append es []) (rev_append rs []))
       | t :: a :: b :: c :: d :: e :: r =>
           if tag_is t [69] then
             match kind_of a, N_of_hex b with
